@@ -1,5 +1,4 @@
 use std::collections::HashSet;
-use std::u32;
 
 use solang_parser::pt::{Expression, Loc};
 use solang_parser::{self, pt::SourceUnit};
@@ -43,29 +42,64 @@ fn check_if_inputs_are_power_of_two(
     let mut is_even: bool = false;
 
     //if the first expression is a number literal that is a power of 2
-    if let Expression::NumberLiteral(_, val_string, _) = *box_expression {
-        let value = val_string
-            .parse::<u32>()
-            .expect("Could not parse NumberLiteral value from string to u32");
-
-        if (value != 0) && ((value & (value - 1)) == 0) {
+    if let Expression::NumberLiteral(_, val_string, exponent) = *box_expression {
+        if is_power_of_two_literal(&val_string, &exponent) {
             is_even = true;
         }
     }
 
-    //if the first expression is a number literal that is a power of 2
-    if let Expression::NumberLiteral(_, val_string, _) = *box_expression_1 {
-        let value = val_string
-            .parse::<u32>()
-            .expect("Could not parse NumberLiteral value from string to u32");
-
-        if (value != 0) && ((value & (value - 1)) == 0) {
+    //if the second expression is a number literal that is a power of 2
+    if let Expression::NumberLiteral(_, val_string, exponent) = *box_expression_1 {
+        if is_power_of_two_literal(&val_string, &exponent) {
             is_even = true;
         }
     }
 
     is_even
 }
+
+//Checks whether a decimal literal of any size is a power of two, without converting it to a machine integer
+fn is_power_of_two_literal(val_string: &str, exponent: &str) -> bool {
+    //a literal scaled by a power of ten (1e18, 2e3) is never a power of two
+    if !exponent.is_empty() {
+        return false;
+    }
+
+    let mut digits: Vec<u8> = val_string
+        .bytes()
+        .filter(|b| b.is_ascii_digit())
+        .map(|b| b - b'0')
+        .skip_while(|d| *d == 0)
+        .collect();
+
+    //zero is not a power of two
+    if digits.is_empty() {
+        return false;
+    }
+
+    //halve the number until it is 1 (power of two) or odd (not a power of two)
+    loop {
+        if digits.len() == 1 && digits[0] == 1 {
+            return true;
+        }
+
+        if digits[digits.len() - 1] % 2 == 1 {
+            return false;
+        }
+
+        let mut carry = 0;
+        for digit in digits.iter_mut() {
+            let current = carry * 10 + *digit;
+            *digit = current / 2;
+            carry = current % 2;
+        }
+
+        if digits[0] == 0 {
+            digits.remove(0);
+        }
+    }
+}
+
 
 #[test]
 fn test_shift_math_optimization() {
